@@ -93,6 +93,22 @@ def build_native(v, memo=None):
             return memo[id(v)]
         cls = resolve_class(v['__class__'])
         o = cls.__new__(cls)
+        if (cls.__module__ or '').startswith('kmip.core'):
+            # start from the class's own defaults (fields the model never looked at stay at them)
+            try:
+                cls.__init__(o)
+            except Exception:
+                pass
+        if cls.__name__ == 'KmipEngine':
+            # per-request state the model chooses lazily: default to KMIP 1.4 unless given
+            try:
+                from kmip.core.messages import contents
+                from kmip.services.server import policy as _sp
+                pv = contents.ProtocolVersion(1, 4)
+                o.__dict__.setdefault('_protocol_version', pv)
+                o.__dict__.setdefault('_attribute_policy', _sp.AttributePolicy(pv))
+            except Exception:
+                pass
         memo[id(v)] = o
         for k, x in v.items():
             if k == '__class__':
